@@ -9,7 +9,7 @@ SPEC = dict(
                 "ranges; the simple and keyword analyzers; analysis.TokenFrequency; Document.Analyze) — the observed output is "
                 "recomputed by the Coq model (rune classes, unicode.ToLower, TokenMap lookups tabulated per case); (b) every one of "
                 "the 24 bundled analyzers run stage by stage, every other bundled tokenizer / token filter / char filter called "
-                "directly — the recorded stage input and output go through the Coq contract checker (tok_ok, pure_tok, "
+                "directly, random chains of 2-4 bundled filters and fixed chains replaying the repaired offset defects — the recorded stage input and output go through the Coq contract checker (tok_ok, pure_tok, "
                 "preservation). Inputs: script-aware generators (Latin languages, Greek, Cyrillic, Arabic, Persian, Sorani, "
                 "Devanagari, CJK incl. half/full width forms), raw bytes, truncated runes, broken encodings spliced into valid text, "
                 "apostrophes/elisions, markup/web shapes, empty and tiny strings, long tokens. A case is non-trivial when the "
